@@ -503,20 +503,22 @@ class CalWorld:
         q = dict(after=after, before=before, limit=limit, succeeded=succeeded, via=via, shape=shape, now=now)
         self.op(f'query via={via} after={fmt(after)} before={fmt(before)} limit={limit} succeeded={succeeded} at {fmt(now)}')
         result = exc = None
+        a, b = after, before
+        if self.cfg['tz_offsets']:
+            # the same instants, written with another UTC offset
+            a, b = self.in_zone(a, 'q.after'), self.in_zone(b, 'q.before')
+            q['offset'] = any(x is not None and x.utcoffset() for x in (a, b))
+            if q['offset']:
+                self.op(f'      bounds as passed: after={fmt(a)} before={fmt(b)}')
         try:
             if via == 'find':
-                a, b = after, before
-                if self.cfg['tz_offsets']:
-                    a, b = self.in_zone(a, 'q.after'), self.in_zone(b, 'q.before')
                 result = chronicle.find(after=a, before=b, limit=limit, succeeded=succeeded)
             else:
                 # what DynamicContent hands over: one list of str per query argument that is present
                 kw = {}
                 style = ch.choose('q.isostyle', 3)
-                for name, v in (('after', after), ('before', before)):
+                for name, v in (('after', a), ('before', b)):
                     if v is not None:
-                        if self.cfg['tz_offsets']:
-                            v = self.in_zone(v, 'q.' + name)
                         s = v.isoformat() if style != 1 else v.isoformat(sep=' ')
                         if style == 2 and s.endswith('+00:00'):
                             s = s[:-6] + 'Z'
@@ -556,12 +558,14 @@ class CalWorld:
           "when only an upper bound or only a limit is given": exactly the window is demanded.
         """
         after, before, limit, via, shape, now = q['after'], q['before'], q['limit'], q['via'], q['shape'], q['now']
-        tag = f'via={via},shape={shape}'
+        if q.get('offset'):
+            via = via + ',bounds=utc_offset'
+        tag = f'via={via}'
         if exc is not None:
             if isinstance(exc, ValueError) and after is None and before is None and limit is None:
                 self.probes['query_all_none_valueerror'] += 1
                 return
-            self.violate('C18', 'query_raised', f'{tag},exc={type(exc).__name__}', f'{self.qtext(q)} raised {exc!r}')
+            self.violate('C18', 'query_raised', f'{tag},shape={shape},exc={type(exc).__name__}', f'{self.qtext(q)} raised {exc!r}')
             return
         status = 'success' if q['succeeded'] else 'failure'
         byseq = {r['seq']: r for r in self.recs}
